@@ -152,39 +152,60 @@ fn parse_config_from_env_var(env: &DeltaEnv) -> HashMap<String, String> {
 }
 
 lazy_static! {
-    static ref GIT_CONFIG_PARAMETERS_REGEX: Regex = Regex::new(
-        r"(?x)
-        (?:                               # Non-capturing group containing union
-            '(delta\.[a-z-]+)=([^']*)'    # Git <2.31.0 format
-        |
-            '(delta\.[a-z-]+)'='([^']*)'  # Git ≥2.31.0 format
-        )
-        "
-    )
-    .unwrap();
+    static ref GIT_CONFIG_PARAMETERS_KEY_REGEX: Regex = Regex::new(r"^delta\.[a-z-]+$").unwrap();
+}
+
+// Read one word as written by git's sq_quote_buf(): '...' sections, with a
+// quote or exclamation mark in the value written as '\'' or '\!'.
+fn parse_sq_quoted(s: &str) -> Option<(String, &str)> {
+    let mut rest = s.strip_prefix('\'')?;
+    let mut word = String::new();
+    loop {
+        let end = rest.find('\'')?;
+        word.push_str(&rest[..end]);
+        rest = &rest[end + 1..];
+        match rest.as_bytes() {
+            [b'\\', c @ (b'\'' | b'!'), b'\'', ..] => {
+                word.push(*c as char);
+                rest = &rest[3..];
+            }
+            _ => return Some((word, rest)),
+        }
+    }
 }
 
 fn parse_config_from_env_var_value(s: &str) -> HashMap<String, String> {
-    GIT_CONFIG_PARAMETERS_REGEX
-        .captures_iter(s)
-        .map(|captures| {
-            let (i, j) = match (
-                captures.get(1),
-                captures.get(2),
-                captures.get(3),
-                captures.get(4),
-            ) {
-                (Some(_), Some(_), None, None) => (1, 2),
-                (None, None, Some(_), Some(_)) => (3, 4),
-                _ => (0, 0),
-            };
-            if (i, j) == (0, 0) {
-                ("".to_string(), "".to_string())
-            } else {
-                (captures[i].to_string(), captures[j].to_string())
+    let mut config = HashMap::new();
+    let mut rest = s.trim_start();
+    while let Some((word, after)) = parse_sq_quoted(rest) {
+        rest = after;
+        let (key, value) = if let Some(after) = rest.strip_prefix('=') {
+            // Git ≥2.31.0 format: 'key'='value', or 'key'= for a key given without a value
+            match parse_sq_quoted(after) {
+                Some((value, after)) => {
+                    rest = after;
+                    (word, Some(value))
+                }
+                None => {
+                    rest = after;
+                    (word, None)
+                }
             }
-        })
-        .collect()
+        } else {
+            // Git <2.31.0 format: 'key=value', or 'key'
+            match word.split_once('=') {
+                Some((key, value)) => (key.to_string(), Some(value.to_string())),
+                None => (word, None),
+            }
+        };
+        // (section and variable names are case-insensitive; a key without a value is a true boolean)
+        let key = key.to_ascii_lowercase();
+        if GIT_CONFIG_PARAMETERS_KEY_REGEX.is_match(&key) {
+            config.insert(key, value.unwrap_or_else(|| "true".to_string()));
+        }
+        rest = rest.trim_start();
+    }
+    config
 }
 
 pub trait GitConfigGet {
